@@ -37,7 +37,9 @@ GROUPS = {
              "isingStep_law_invariant_partial", "isingStep_law_invariant_partial_hb", "htrav_of_enum",
              # hypothesis-free: TravOK proved for every well-formed skeleton (Qmc.Law.travOK, QmcProofs/LawTravOK.lean)
              "clusterUpdate_law_eq_kernel", "step_law_eq_kernels", "isingStep_law_invariant",
-             "isingStep_law_invariant_hb"],
+             "isingStep_law_invariant_hb",
+             # hperm discharged: the traversal is complete and sound, the update's family = Kernel.componentFlips
+             "clusterKernel_eq_components", "step_law_eq_kernels_components", "isingStep_law_eq_timestepK"],
     # non-vacuity facts used by the examples
     "example": ["Example.exB_legal", "Example.exB_mem_legal", "Example.H_wf", "Example.exB_travOK",
                 "Example.spec3_trav2"],
